@@ -88,9 +88,9 @@ class RSocketClient(RSocketBase):
         return await super().connect()
 
     async def _stop_tasks(self):
+        keepalive_task, self._keepalive_task = self._keepalive_task, None
         await super()._stop_tasks()
-        await cancel_if_task_exists(self._keepalive_task)
-        self._keepalive_task = None
+        await cancel_if_task_exists(keepalive_task)
 
     async def _connect_new_transport(self):
         try:
